@@ -103,6 +103,29 @@ theorem miser_history (u01 : U01 G) (f : List Rat → Rat) (pw23 : Rat → Rat) 
 theorem miser_history_counterexample :
     (2 * lcgN 2 0) / 175000 ≠ (2 * lcgN 2 100000) / 175000 := by decide
 
+/-- the reset happens at ENTRY: whatever the static holds when the call starts — left by an earlier run, or in the middle
+    of an enclosing Miser integration whose integrand makes this call — the result is that of a run started from 0 -/
+theorem miser_entry_reset (u01 : U01 G) (f : List Rat → Rat) (pw23 : Rat → Rat) (region : List Rat) (ncall : Int) (s : Nat) (g : G) :
+    (miserTopS u01 f pw23 region ncall s g).1 = miserTop u01 f pw23 region ncall 0 g := by
+  unfold miserTopS miserTop
+  cases miser u01 f pw23 ncall.toNat.succ region ncall 0 g <;> rfl
+
+theorem miser_nested_independent (u01 : U01 G) (f : List Rat → Rat) (pw23 : Rat → Rat) (region : List Rat) (ncall : Int) (s₁ s₂ : Nat) (g : G) :
+    (miserTopS u01 f pw23 region ncall s₁ g).1 = (miserTopS u01 f pw23 region ncall s₂ g).1 := by
+  rw [miser_entry_reset, miser_entry_reset]
+
+/-- a reset on EXIT instead is indistinguishable for sequences of completed (or abandoned) top-level calls: it leaves 0,
+    and started from 0 it is the coded call … -/
+theorem miser_exit_reset_sequential (u01 : U01 G) (f f' : List Rat → Rat) (pw23 : Rat → Rat) (region region' : List Rat) (ncall ncall' : Int)
+    (s : Nat) (g g' : G) :
+    (miserTopExitReset u01 f pw23 region ncall (miserTopExitReset u01 f' pw23 region' ncall' s g').2 g).1
+      = miserTop u01 f pw23 region ncall s g := rfl
+
+/-- … but a call nested in a running Miser integration starts from the enclosing run's current static: it is the
+    unrepaired behaviour (`miserTopNoReset`), whose fallback axis depends on that value (`miser_history_counterexample`) -/
+theorem miser_exit_reset_nested (u01 : U01 G) (f : List Rat → Rat) (pw23 : Rat → Rat) (region : List Rat) (ncall : Int) (s : Nat) (g : G) :
+    (miserTopExitReset u01 f pw23 region ncall s g).1 = miserTopNoReset u01 f pw23 region ncall s g := rfl
+
 /-- with `dith = 0` the bisection point is the midpoint, hence inside the parent interval -/
 theorem miser_rmid_inside (region : List Rat) (dim j : Nat) (h : at_ region j ≤ at_ region (dim + j)) :
     at_ region j ≤ rmid region dim j ∧ rmid region dim j ≤ at_ region (dim + j) := by
